@@ -88,6 +88,10 @@ func genC10Spec(rng *Rng, depth int) *c10spec {
 }
 
 type c10crash struct{}
+type c10block struct {
+	entered chan struct{}
+	gate    chan struct{}
+}
 
 // ---- behaviours --------------------------------------------------------------------------------------
 
@@ -112,6 +116,10 @@ func (a *c10leaf) Init(args ...any) error {
 func (a *c10leaf) HandleMessage(from gen.PID, m any) error {
 	if _, ok := m.(c10crash); ok {
 		return errors.New("crash")
+	}
+	if b, ok := m.(c10block); ok {
+		close(b.entered)
+		<-b.gate
 	}
 	return nil
 }
